@@ -21,6 +21,7 @@ class Violation(Exception):
     def __init__(self, msg, kind='assert', aid=None, model=None):
         Exception.__init__(self, msg); self.msg = msg; self.kind = kind; self.aid = aid; self.model = model
 class PathEnd(Exception): pass
+class Pruned(Exception): pass
 class Reschedule(Exception): pass
 class Unwind(Exception): pass
 class Inconclusive(Exception): pass
@@ -102,10 +103,10 @@ class Frame:
 
 
 class Thread:
-    __slots__ = ('stack', 'status', 'cv', 'relock', 'timed', 'wres', 'spin', 'rets')
-    def __init__(self): self.stack = []; self.status = 'ready'; self.cv = None; self.relock = None; self.timed = False; self.wres = 1; self.spin = None; self.rets = (1, 0)
+    __slots__ = ('stack', 'status', 'cv', 'relock', 'timed', 'wres', 'spin', 'rets', 'fresh')
+    def __init__(self): self.stack = []; self.status = 'ready'; self.cv = None; self.relock = None; self.timed = False; self.wres = 1; self.spin = None; self.rets = (1, 0); self.fresh = False
     def clone(self):
-        t = Thread(); t.stack = [f.clone() for f in self.stack]; t.status = self.status; t.cv = self.cv; t.relock = self.relock; t.timed = self.timed; t.wres = self.wres; t.spin = self.spin; t.rets = self.rets; return t
+        t = Thread(); t.stack = [f.clone() for f in self.stack]; t.status = self.status; t.cv = self.cv; t.relock = self.relock; t.timed = self.timed; t.wres = self.wres; t.spin = self.spin; t.rets = self.rets; t.fresh = self.fresh; return t
 
 
 class State:
@@ -113,7 +114,7 @@ class State:
         self.mem = {}; self.own = set(); self.threads = [Thread()]; self.cur = 0; self.resumed = False
         self.mutexes = {}; self.pc = []; self.model = None; self.next_obj = 1; self.choices = []; self.obs = []
         self.cover = set(); self.nsym = 0; self.steps = 0; self.nalloc = 0; self.preempt = 0; self.faults = 0
-        self.exc = None; self.caught = []; self.tids = {}; self.abandoned = False; self.tags = set(); self.live_heap = 0
+        self.exc = None; self.caught = []; self.tids = {}; self.abandoned = False; self.tags = set(); self.live_heap = 0; self.shared = {}
     @property
     def stack(self): return self.threads[self.cur].stack
     def clone(self):
@@ -124,7 +125,7 @@ class State:
         s.choices = list(self.choices); s.obs = list(self.obs); s.cover = set(self.cover); s.nsym = self.nsym
         s.steps = self.steps; s.nalloc = self.nalloc; s.preempt = self.preempt; s.faults = self.faults
         s.exc = self.exc; s.caught = list(self.caught); s.tids = dict(self.tids); s.abandoned = self.abandoned
-        s.tags = set(self.tags); s.live_heap = self.live_heap
+        s.tags = set(self.tags); s.live_heap = self.live_heap; s.shared = dict(self.shared)
         return s
 
 
@@ -136,14 +137,15 @@ NOSCHED_ORD = ('monotonic', 'unordered')
 
 class Engine:
     def __init__(self, m, entry='harness', max_faults=1, max_preempt=2, max_path_steps=400000, max_enum=64,
-                 solver_timeout_ms=20000, single_threaded_libc=True):
+                 solver_timeout_ms=20000, single_threaded_libc=True, shared_points=False):
         self.m = m; self.lay = Layout(m); self.entry = entry
         self.max_faults = max_faults; self.max_preempt = max_preempt; self.max_path_steps = max_path_steps; self.max_enum = max_enum
-        self.solver_timeout_ms = solver_timeout_ms
+        self.solver_timeout_ms = solver_timeout_ms; self.shared_points = shared_points
         self.reset_stats()
         self.fobj = {}; self.gobj = {}; self.base = {}
         self.init_state = State(); st = self.init_state
         for f in m.funcs.values():
+            f.is_lib = '7eventpp' in f.name
             if f.defined:
                 f.entry = next(iter(f.blocks))
         for name in m.funcs:
@@ -500,6 +502,8 @@ class Engine:
                 self.exec_path(st, work)
             except PathEnd:
                 self.finish_path(st)
+            except Pruned:
+                pass
             except Violation as e:
                 self.record_violation(st, e)
             except Inconclusive as e:
@@ -574,15 +578,31 @@ class Engine:
             st.resumed = False
         return False
 
+    def shared_point(self, st, work, fr, p):
+        """automatic scheduling point: plain access, from eventpp code, to a heap/global object another thread has touched"""
+        if type(p) is not tuple: return False
+        oid = p[0]; m = st.shared.get(oid, 0); bit = 1 << st.cur
+        if not m & bit:
+            o = st.mem.get(oid) or self.base.get(oid)
+            if o is None or o.kind == 'stack' or o.kind == 'func': return False
+            st.shared[oid] = m | bit
+        if m & ~bit and fr.f.is_lib:
+            if not st.resumed:
+                self.schedule(st, work); return True
+            st.resumed = False
+        return False
+
     def i_load(self, st, work, fr, ins):
         if ins.x is not None and ins.x not in NOSCHED_ORD and self.mt_point(st, work, fr): return
         v = ins.ops[0]; p = fr.loc[v.a] if v.k == 'local' else v.a
+        if self.shared_points and len(st.threads) > 1 and ins.x is None and self.shared_point(st, work, fr, p): return
         fr.loc[ins.res] = self.load(st, p, ins.c[0], ins.c[1]); fr.ip += 1
 
     def i_store(self, st, work, fr, ins):
         if ins.x is not None and ins.x not in NOSCHED_ORD and self.mt_point(st, work, fr): return
         v = ins.ops[0]; x = fr.loc[v.a] if v.k == 'local' else v.a
         v = ins.ops[1]; p = fr.loc[v.a] if v.k == 'local' else v.a
+        if self.shared_points and len(st.threads) > 1 and ins.x is None and self.shared_point(st, work, fr, p): return
         if x is None: x = 0  # aggregate zero/undef stores are not produced by clang -O1 for our code
         self.store(st, p, x, ins.c); fr.ip += 1
 
@@ -706,7 +726,8 @@ class Engine:
         cur[ins.x[-1]] = b; fr.loc[ins.res] = a; fr.ip += 1
 
     def i_atomicrmw(self, st, work, fr, ins):
-        if self.mt_point(st, work, fr): return
+        # acq_rel read-modify-writes are libstdc++'s shared_ptr reference counts: executed atomically, never a scheduling point
+        if ins.c != 'acq_rel' and self.mt_point(st, work, fr): return
         p = self.val(fr, ins.ops[0]); v = self.val(fr, ins.ops[1]); w = self.lay.sa(ins.ty)[0]
         old = self.load(st, p, w, False)
         new = v if ins.x == 'xchg' else self.binop(st, ins.x, old, v, ins.ty.a, ())
@@ -916,8 +937,8 @@ class Engine:
         op = ins.op
         if op == 'call' or op == 'invoke':
             cal = ins.x['callee']; return cal.k == 'global' and cal.a in SYNC
-        if op == 'atomicrmw': return True
-        if op == 'load' or op == 'store': return ins.x is not None and ins.x not in NOSCHED_ORD
+        if op == 'atomicrmw': return ins.c != 'acq_rel'
+        if op == 'load' or op == 'store': return (ins.x is not None and ins.x not in NOSCHED_ORD) or (self.shared_points and ins.x is None)
         return False
 
     def wake(self, st):
@@ -932,7 +953,9 @@ class Engine:
             else: fr.ip += 1
             st.resumed = False; return
         fr = t.stack[-1]
-        st.resumed = self.is_sched_ins(fr.blk[fr.ip])
+        if t.fresh:
+            t.fresh = False; st.resumed = self.is_sched_ins(fr.blk[fr.ip]) and not (fr.blk[fr.ip].op in ('load', 'store') and fr.blk[fr.ip].x is None)
+        else: st.resumed = True    # a thread that ran before is always parked at the scheduling point it was switched away from
 
     # ------------------------------------------------------------------ calls
     def do_call(self, st, work, fr, ins):
@@ -1208,7 +1231,7 @@ def x_self(e, st, work, fr, ins, a): return st.cur
 
 @ext('vf_spawn')
 def x_spawn(e, st, work, fr, ins, a):
-    t = Thread(); f = e.m.funcs[e.fname[a[0][0]]]; nf = Frame(f); nf.loc[f.params[0][1]] = a[1]; t.stack.append(nf); st.threads.append(t)
+    t = Thread(); t.fresh = True; f = e.m.funcs[e.fname[a[0][0]]]; nf = Frame(f); nf.loc[f.params[0][1]] = a[1]; t.stack.append(nf); st.threads.append(t)
     return len(st.threads) - 1
 
 @ext('vf_join_all')
@@ -1304,10 +1327,10 @@ def x_assume(e, st, work, fr, ins, a):
     if is_sym(c):
         c = e.as_bool(c); ok, mdl = e.sat(st, c)
         if not ok:
-            e.pruned += 1; raise PathEnd()
+            e.pruned += 1; raise Pruned()
         e.add_pc(st, c, mdl)
     elif not c:
-        e.pruned += 1; raise PathEnd()
+        e.pruned += 1; raise Pruned()
     return None
 
 @ext('vf_assert')
